@@ -3,6 +3,12 @@
 
 use digest::Digest as _;
 
+/// Seeds that agree on their low 64 bits (and on their top bytes): anything that identifies a seed by a fingerprint
+/// of part of it confuses them
+pub fn structured_seed(tag: u64) -> Scalar {
+    Scalar::from(0x5EED_5EED_5EED_5EEDu64) + Scalar::from(1u64 << 32) * Scalar::from(1u64 << 32) * Scalar::from(1 + tag % 1000)
+}
+
 /// Deterministic probe: proves and verifies fixed instances and digests every result bit
 pub fn probe(pid: usize, seed: u64) -> String {
     <P as Gx>::case_reset();
@@ -18,7 +24,10 @@ pub fn probe(pid: usize, seed: u64) -> String {
     let mut proofs = vec![];
     for k in 0..3 {
         let cfg = cfgs[(pid + k) % cfgs.len()];
-        let case = Case::random(cfg, VALUE_CLASSES[(pid + k) % 6], PROMISE_CLASSES[(pid + k) % 5], true, &mut rng);
+        let mut case = Case::random(cfg, VALUE_CLASSES[(pid + k) % 6], PROMISE_CLASSES[(pid + k) % 5], true, &mut rng);
+        if case.seed.is_some() {
+            case.seed = Some(structured_seed(500 + pid as u64 * 3 + k as u64));
+        }
         let mut prng = FaultRng::new(RngKind::Healthy(1000 + pid as u64 + k as u64));
         match case.prove(&mut prng) {
             Ok(p) => {
@@ -76,7 +85,10 @@ pub fn history_op(op: usize, rng: &mut impl RngCore) -> &'static str {
     let ext = 1 + (op / 3) % 6;
     let mk = |m: usize, rng: &mut dyn RngCore| -> Option<(Case, Proof)> {
         let mut r = rng;
-        let case = Case::random(Cfg::new(n, m, m, ext), VALUE_CLASSES[op % 6], PROMISE_CLASSES[op % 5], m == 1, &mut r);
+        let mut case = Case::random(Cfg::new(n, m, m, ext), VALUE_CLASSES[op % 6], PROMISE_CLASSES[op % 5], m == 1, &mut r);
+        if case.seed.is_some() {
+            case.seed = Some(structured_seed(r.next_u64() % 400));
+        }
         let mut prng = FaultRng::new(RngKind::Healthy(r.next_u64()));
         let p = case.prove(&mut prng).ok()?;
         Some((case, p))
